@@ -42,10 +42,9 @@ Print Assumptions C17_erase_any_template.
 
 (** Enabled: exactly one `new_span`, with the configured name / level / target / parent; its fields are the
     named, non-skipped, non-overridden parameters in order, then the custom fields; every custom field
-    expression, the parent expression and the follows_from list are evaluated / reported exactly once.
-    Known finding F171: `skip_all` is excluded by hypothesis and refuted below. *)
+    expression, the parent expression and the follows_from list are evaluated / reported exactly once
+    (`skip(..)` is the only way this tree's attr.rs has to leave a parameter out; [a_skips].) *)
 Theorem C17_one_span : forall c args f a,
-  a_skip_all a = false ->
   span_on c (level_of a) = true ->
   let l := fst (run c args f (expand a f)) in
   exists fields,
@@ -54,18 +53,8 @@ Theorem C17_one_span : forall c args f a,
     /\ filter is_feval l = map TFieldEval (flat_map eval_index (a_fields a))
     /\ filter is_peval l = match a_parent a with Some (PxHelper k) => [TParentEval k] | _ => [] end
     /\ filter is_follows l = match a_follows a with Some ks => map TFollows ks | None => [] end.
-Proof. exact one_span_thm. Qed.
+Proof. exact one_span_on. Qed.
 Print Assumptions C17_one_span.
-
-Theorem C17_F171_refuted :
-  exists c args f a,
-    a_skip_all a = true /\ span_on c (level_of a) = true
-    /\ exists fields,
-         filter is_newspan (fst (run c args f (expand a f)))
-         = [TNewSpan (a_name a) (level_of a) (a_target a) (parent_obs (a_parent a)) fields]
-         /\ map fst fields <> expected_names a f.
-Proof. exact F171_refuted. Qed.
-Print Assumptions C17_F171_refuted.
 
 (** Disabled (statically or dynamically, or no collector): no span callback, no field or parent expression. *)
 Theorem C17_no_span_when_disabled : forall c args f a,
